@@ -47,7 +47,7 @@ type c24cLoaderKey struct{}
 func TestVerifC24Conc(t *testing.T) {
 	r := verifkit.Start(t, "C24", "conc")
 	defer r.Finish()
-	r.SetRule("rounds of 12 goroutines issuing get over 6 fixed ranges x 2 query keys, 2 goroutines invalidating seconds of those ranges and one goroutine advancing the virtual clock (0..20 s steps) against one real pointsCache under -race. One case = one get served from the cache, judged: forbidden if a second of its range was invalidated by a call that had returned before the get was called and whose clock reading before the call + linger >= the clock reading at the entry of the load that produced the rows. Non-trivial = at least one invalidation of a second of the range had returned before the call; distinct = (round, range, key, relation of load start to newest such invalidation).")
+	r.SetRule("rounds of 12 goroutines issuing get over 7 fixed ranges (one of ~6 h) x 2 query keys, one of twelve utc offsets per round (whole hours, :30, :45), 2 goroutines invalidating seconds of those ranges and one goroutine advancing the virtual clock (0..20 s steps) against one real pointsCache under -race. One case = one get served from the cache, judged: forbidden if a second of its range was invalidated by a call that had returned before the get was called and whose clock reading before the call + linger >= the clock reading at the entry of the load that produced the rows. Non-trivial = at least one invalidation of a second of the range had returned before the call; distinct = (round, range, key, relation of load start to newest such invalidation).")
 	rounds := r.N(24, 500)
 	getsPerWorker := 400
 	for round := 0; round < rounds; round++ {
@@ -55,7 +55,8 @@ func TestVerifC24Conc(t *testing.T) {
 		e := &c24cEnv{}
 		base := int64(1_700_000_000) + rnd.Int64N(86400*30)
 		e.vnow.Store(base * c24Sec)
-		pool := []c24Range{{base - 3600, base - 3540}, {base - 3650, base - 3500}, {base - 7300, base - 100}, {base - 120, base - 119}, {base - 40, base + 20}, {base - 900, base - 600}}
+		utcOff := c24UTCOffsets[rnd.IntN(len(c24UTCOffsets))]
+		pool := []c24Range{{base - 6*3600 - 17, base - 200}, {base - 3600, base - 3540}, {base - 3650, base - 3500}, {base - 7300, base - 100}, {base - 120, base - 119}, {base - 40, base + 20}, {base - 900, base - 600}}
 		maxSize := []int{8, 40, 1000}[rnd.IntN(3)]
 		loader := func(ctx context.Context, _ *requestHandler, pq *queryBuilder, lod data_model.LOD) ([]pSelectRow, error) {
 			L := &c24cLoad{key: pq.metric.MetricID, rng: c24Range{lod.FromSec, lod.ToSec}, stubStart: e.vnow.Load()}
@@ -73,7 +74,7 @@ func TestVerifC24Conc(t *testing.T) {
 			}
 			return rows, nil
 		}
-		c := newPointsCache(maxSize, 0, loader, func() time.Time { return time.Unix(0, e.vnow.Load()) })
+		c := newPointsCache(maxSize, utcOff, loader, func() time.Time { return time.Unix(0, e.vnow.Load()) })
 		var stop atomic.Bool
 		var side sync.WaitGroup
 		side.Add(1)
